@@ -170,10 +170,18 @@ def rule_version_gates(rep: Report, repo: Repo) -> None:
              'sets on both sides', 4)
     REL = "self.version in (FJMVersion.RelativeJumpVersion, FJMVersion.CompressedVersion)"
     def tests(rel: str, fn: str) -> List[str]:
-        # a private predicate method (`self._is_relative_jumps_version()`) stands for the expression it returns
-        return [norm(inline_module_constants(repo, rel, inline_predicates(repo, rel, fn.split('.')[0] if '.' in fn else None, n.test)))
-                for n in ast.walk(expand_private_calls(repo, rel, repo.func(rel, fn), fn.split('.')[0] if '.' in fn else None, depth=2))
-                if isinstance(n, ast.If)]
+        # a private predicate method (`self._is_relative_jumps_version()`) stands for the expression it returns, a local that names
+        # the condition (`jumps_are_relative = self.version in (..)`) for the condition, a private tuple constant of this module or
+        # of the shared constants module for its members
+        from ..pyfacts import named_predicate
+        fx = expand_private_calls(repo, rel, repo.func(rel, fn), fn.split('.')[0] if '.' in fn else None, depth=2)
+        out_ = []
+        for n in ast.walk(fx):
+            if isinstance(n, ast.If):
+                e_ = inline_predicates(repo, rel, fn.split('.')[0] if '.' in fn else None, named_predicate(fx, n.test))
+                e_ = inline_module_constants(repo, 'flipjump/fjm/fjm_consts.py', inline_module_constants(repo, rel, e_))
+                out_.append(norm(e_))
+        return out_
     # the extension header is packed / unpacked exactly when the version is known to differ from Base - whichever branch,
     # comparison direction or nesting spells the gate (facts dominating the pack / unpack call)
     from ..excflow import GuardFacts, dominating_guards
@@ -215,7 +223,7 @@ def rule_reljump(rep: Report, repo: Repo) -> None:
     if not (isinstance(st, ast.Assign) and isinstance(st.targets[0], ast.Subscript)):
         raise AnalysisError('_update_to_relative_jumps: unexpected loop body')
     w_idx = lx.lin_show(to_lin(py_ir(st.targets[0].slice), wenv))
-    w_val = py_ir(st.value)
+    w_val = py_ir(resolve_names(wf, st.value))
     im = _reader_init_memory(repo)
     rl = [n for n in ast.walk(im) if isinstance(n, ast.For) and norm(n.iter).startswith('range(0, data_length')]
     if not rl:
@@ -228,7 +236,8 @@ def rule_reljump(rep: Report, repo: Repo) -> None:
     flip_st = [s for s in rbody if isinstance(s, ast.Assign) and not isinstance(s.value, ast.BinOp)]
     if len(jump_st) != 1 or len(flip_st) != 1:
         raise AnalysisError('_init_memory: relative-jump loop body shape changed')
-    r_val = py_ir(jump_st[0].value)
+    # a mask / offset named by a local of the function (inside or before the loop) reads as what it names
+    r_val = py_ir(resolve_names(im, jump_st[0].value))
     r_dst = lx.lin_show(to_lin(py_ir(jump_st[0].targets[0].slice), renv))
     site = f'{R}:{rl[0].lineno} Reader._init_memory'
     rep.check(wr == 'range(1, data_length, 2)' and rr == 'range(0, data_length, 2)', 'C06.RELJUMP-INVERSE', 'index-sets',
@@ -474,7 +483,7 @@ def rule_overlap(rep: Report, repo: Repo) -> None:
               f'{W}:{col.lineno}', expected='s1 <= e2 and s2 <= e1')
     for fn_name, s, l in (('Writer._validate_segment_addresses_not_overlapping', 'segment_start', 'segment_length'),
                           ('Writer._validate_segment_data_not_overlapping', 'data_start', 'data_length')):
-        fn = repo.func(W, fn_name)
+        fn = expand_private_calls(repo, W, repo.func(W, fn_name), 'Writer', depth=2)       # a private `last index` helper reads as its formula
         # the collision test is applied to (start, start + length - 1) of the stored segment and of the new one: the four arguments of
         # the one _is_collision call, read through the names the function gives to the inclusive ends
         cs = [[norm(resolve_names(fn, a)) for a in c.args] for c in calls(fn) if dotted(c.func) == 'self._is_collision']
